@@ -123,8 +123,11 @@ META = {
              "ParseFloat) are explicit hypotheses of string_token_roundtrip / number_literal_roundtrip, discharged by the "
              "round-trip oracle only; the lexical theorems are per token class and per lexer step: a character-level model of "
              "the printer's spacing and the induction chaining the steps over a whole printed expression (lexAll(printText e) = "
-             "tokens of printExpr e) are NOT proved beyond that one family (range selectors with an offset), so accepted_roundtrip is not yet one "
-             "character-level statement for all expressions (not even for the fragment without unary signs) - on every "
+             "tokens of printExpr e) are proved only for the family `name[<n>s] offset <m>s` (lexAll_range_offset) and for the "
+             "recursive fragment of lexAll_printText_fragment (names, name[<n>s], parentheses, one-argument calls, binary +); "
+             "matchers, several arguments, @/offset inside the fragment, aggregations, the other operators and modifiers, number/string "
+             "operands and unary signs are NOT in it, nor is the bridge from those raw tokens to parse or a correspondence op tying "
+             "printText to String(), so accepted_roundtrip is not yet one character-level statement for all expressions - on every "
              "generated case that composition is checked by the correspondence (print + lexall); parseDuration's float rounding is modelled exactly, which agrees with the code below "
              "2^59 ns (18 years) - `100y500ms` rounds down in the code; `@` timestamps rendered exactly for |ms| < 2^52; the order "
              "in which matchers are printed is not modelled; 'never panics' is the direct oracle only. Trusted: Lean kernel; the "
